@@ -149,6 +149,52 @@ def rule_table_qasm(ctx: Ctx) -> None:
                      func=f.name, construct=f"qasm: wrapper member name '{gname}' is not a single letter")
 
 
+def rule_wrapper_per_operation(ctx: Ctx) -> None:
+    """qasm.per-operation: single_qubit_wrapper_info contributes one body statement (and one letter of the composite name) for *every*
+    element of the wrapper's operation list that has a gate name; the only elements it may skip are those whose gate name is empty
+    (Identity).  Skipping an element because its gate was seen before turns [H, P, H, P, X] into the body of H P X."""
+    repo = ctx.repo
+    m = repo.module(OQ)
+    fn = repo.anchor(OQ, "single_qubit_wrapper_info")
+    ctx.touch(m, fn)
+    lst = func_params(fn)[0]
+    loops_ = [l for l in fn.body if isinstance(l, ast.For) and norm(l.iter).replace("reversed(", "").rstrip(")").split("[")[0] == lst]
+    if len(loops_) != 1:
+        raise AnalysisError("single_qubit_wrapper_info: the loop over the operation list was not found")
+    lp = loops_[0]
+    info_names = {norm(a.targets[0]) for a in ast.walk(lp) if isinstance(a, ast.Assign) and isinstance(a.value, ast.Call) and call_attr(a.value) == "openqasm_info"}
+    bad = None
+    for sk in [x for x in ast.walk(lp) if isinstance(x, (ast.Continue, ast.Break))]:
+        g = next((a for a in _ancs14(sk) if isinstance(a, ast.If)), None)
+        ok = False
+        if g is not None:
+            t = g.test
+            if isinstance(t, ast.Compare) and len(t.ops) == 1 and isinstance(t.ops[0], ast.Eq):
+                sides = [t.left, t.comparators[0]]
+                ok = any(isinstance(x, ast.Constant) and x.value == "" for x in sides) and any(
+                    isinstance(x, ast.Attribute) and x.attr == "gate_name" and norm(x.value) in info_names for x in sides)
+            elif isinstance(t, ast.UnaryOp) and isinstance(t.op, ast.Not) and isinstance(t.operand, ast.Attribute) and t.operand.attr == "gate_name":
+                ok = True
+        if not ok:
+            bad = (sk, g)
+            break
+    if bad is None:
+        ctx.ok("qasm.per-operation", m, lp, what="only elements without a gate name are skipped")
+    else:
+        sk, g = bad
+        ctx.fail("qasm.per-operation", m, g.test if g is not None else sk,
+                 f"single_qubit_wrapper_info skips wrapper elements under `{short(g.test) if g is not None else 'no condition'}`: only an element without a gate "
+                 f"name (Identity) contributes nothing — a gate that occurs twice in the list acts twice, so [H, P, H, P, X] must not export the body of "
+                 f"[H, P, X]", func="single_qubit_wrapper_info", construct="single_qubit_wrapper_info: elements skipped for another reason than an empty name")
+
+
+def _ancs14(n):
+    p_ = parent(n)
+    while p_ is not None:
+        yield p_
+        p_ = parent(p_)
+
+
 def rule_wrapper_export_order(ctx: Ctx) -> None:
     repo = ctx.repo
     m = repo.module(OQ)
@@ -684,6 +730,7 @@ def rule_json_ctor(ctx: Ctx) -> None:
 def run(ctx: Ctx) -> None:
     rule_json_ctor(ctx)
     rule_json_wrapper_complete(ctx)
+    rule_wrapper_per_operation(ctx)
     rule_qasm_classical_register(ctx)
     rule_json_fields(ctx)
     from ..rules import order as _order
@@ -710,6 +757,7 @@ def run(ctx: Ctx) -> None:
 
 
 KNOCKOUTS = [
+    Knockout("wrapper-info-skips-repeated-gates", OQ, sub_once("        gate_name_dict[oq_info.gate_name] = oq_info\n        if (\n            oq_info.gate_name == \"\"\n        ):  # this is a gate we don't actually need (effectively identity)\n            continue\n", "        if oq_info.gate_name in gate_name_dict:\n            continue\n        gate_name_dict[oq_info.gate_name] = oq_info\n"), "qasm.per-operation", "skipped for another reason"),
     Knockout("json-wrapper-drops-identities", "graphiq/circuit/circuit_dag.py", sub_once("                    if name:\n                        op_list.append(name)", "                    if name and g is not ops.Identity:\n                        op_list.append(name)"), "json.wrapper-complete", "op_list filtered"),
     Knockout("classical-op-no-default-ctor", OPS, sub_once('        control=0,\n        control_type="e",\n        target=0,\n        target_type="p",\n        c_register=0,\n        noise=nm.NoNoise(),\n    ):\n', '        control,\n        control_type,\n        target,\n        target_type,\n        c_register=0,\n        noise=nm.NoNoise(),\n    ):\n'), "json.ctor", "not default-constructible", on_fixed_only=True),
     Knockout("measure-into-quantum-index", OQ, sub_nth('-> c{c_reg[0]}[0]; \\n"', '-> c{q_reg[0]}[0]; \\n"', 0), "qasm.creg", "measure target"),
